@@ -49,12 +49,16 @@ def generate(ck):
     ]
     descs.append({"cls": "ideal", "nx": 40, "p_i": 8000.0, "p_f": 100.0, "alpha_var": {"kind": "linear", "beta": 3.0}, "grid": {"family": "dyadic-blocks", "nt": 60, "t_end": 2.0, "seed": 4}})
     descs.append({"cls": "ideal", "nx": 30, "p_i": 8000.0, "p_f": 100.0, "alpha_var": {"kind": "stored-x", "beta": 3.0}, "grid": {"family": "quadratic", "nt": 80, "t_end": 2.0, "seed": 4}})
+    for beta_, nx_ in ((0.8, 40), (3.0, 12)):
+        descs.append({"cls": "single", "nx": nx_, "table": {"kind": "shipped", "name": "pvt_gas"}, "p_i": 8000.0, "p_f": 1500.0, "alpha_branch": False, "schedule": None, "reused": False, "alpha_hook": beta_, "grid": {"family": "quadratic", "nt": 60, "t_end": 3.0, "seed": 4}})
     # very long histories: 400 x 85 000 = 3.4e7 stored values (beyond 2^24 and 2^25)
     descs.append({"kind": "huge", "cls": "ideal", "nx": 400, "p_i": 8000.0, "p_f": 100.0, "grid": {"family": "quadratic", "nt": 85001, "t_end": 0.5, "seed": 0}})
     if ck.tier == "thorough":
         descs.append({"kind": "huge", "cls": "single", "nx": 400, "table": {"kind": "shipped", "name": "pvt_gas"}, "p_i": 8000.0, "p_f": 7990.0, "alpha_branch": False, "schedule": None, "reused": False, "grid": {"family": "quadratic", "nt": 85001, "t_end": 0.5, "seed": 0}})
     for _ in range(n):
         d = sim.random_sim_desc(rng, ck.tier, twophase_share=0.08)
+        if d["cls"] == "single" and d["grid"]["seed"] % 5 == 3:
+            d["alpha_hook"] = [0.5, 2.0, -0.4][d["grid"]["seed"] % 3]  # (no draw consumed)
         if d["cls"] == "ideal" and rng.random() < 0.5:
             d["alpha_var"] = {"kind": str(rng.choice(["linear", "exp", "step", "stored-x"])), "beta": float(rng.choice([0.5, 3.0, 20.0]))}
         descs.append(d)
